@@ -30,6 +30,7 @@ USE_MODES = {
     "index": True,        # v[1] = 2
     "expr": True,         # self.X = 1 + v * 2
     "dotchain": False,    # self.a.v.b = 1        (inner member name)
+    "recvsame": True,     # v.v = 1               (receiver spelt like the member it selects)
     "deepexpr": True,     # self.Total = v + 1 + 1 + … (80 operands: the mention is the DEEPEST node of a left-nested tree)
     "deepnest": True,     # inside 36 nested blocks
 }
@@ -161,14 +162,22 @@ def render(p):
         if listed and not INH_MODES[m.inh]:
             o.flag("inherited", l0, col, m.name)
         # declarations
-        for v in m.locals:
-            l = o.line("  var %s : %s" % (v.name, rc(v.ty)))
+        joined = getattr(m, "join_decls", False)      # two declarations share one source line (newlines are layout)
+        for vi, v in enumerate(m.locals):
+            decl = "var %s : %s" % (v.name, rc(v.ty))
+            if joined and vi % 2 == 1:
+                l = len(o.lines) - 1
+                col = len(o.lines[l]) + 1 + 4
+                o.lines[l] += " " + decl
+            else:
+                l = o.line("  " + decl)
+                col = 6
             if v.name[0].isupper():
-                o.flag("naming:local", l, 6, v.name)
+                o.flag("naming:local", l, col, v.name)
             if not mentioned_in_own_method(v):
-                o.flag("unused", l, 6, v.name)
+                o.flag("unused", l, col, v.name)
             if is_byte_array(v.ty) and not PURGE_MODES[v.purge]:
-                o.flag("unpurged", l, 6, v.name)
+                o.flag("unpurged", l, col, v.name)
         # statements
         for v in m.locals:
             use = rc(v.name) if v.use != "recase" else (v.name.swapcase() if v.name.swapcase() != v.name else v.name)
@@ -198,6 +207,8 @@ def render(p):
                 o.line("  self.Total = 1 + %s * 2" % use)
             elif v.use == "dotchain":
                 o.line("  self.Part.%s.Size = 1" % use)
+            elif v.use == "recvsame":
+                o.line("  %s.%s = 1" % (use, use))
             elif v.use == "deepexpr":
                 o.line("  self.Total = %s%s" % (use, " + 1" * 80))
             elif v.use == "deepnest":
@@ -329,6 +340,7 @@ def gen_method(rng, idx, c16_weight):
         if rng.chance(1, 12):
             use = rng.choice(["deepexpr", "deepnest"])
         m.locals.append(Local(nm, ty, use, purge))
+    m.join_decls = rng.chance(1, 6)
     return m
 
 
